@@ -20,13 +20,13 @@ IdealTouched(k, d) ==
 MInit == \E c \in Cfgs, k \in StartKernels : 
             /\ (DOMAIN k = {} => c.ownsAll)        \* iptables: the built-in chains always exist
             /\ cfg = c /\ kernel = k
-            /\ desired = [chains |-> [x \in {} |-> <<>>], ins |-> [x \in KCh |-> <<>>], app |-> [x \in KCh |-> <<>>]]
+            /\ desired = [chains |-> [x \in {} |-> <<>>], force |-> {}, ins |-> [x \in KCh |-> <<>>], app |-> [x \in KCh |-> <<>>]]
             /\ belief = [stale |-> TRUE, due |-> TRUE]
             /\ phase = [inApply |-> FALSE, readFailed |-> FALSE, envFail |-> FALSE, notified |-> FALSE, consistent |-> TRUE]
             /\ known = {}
             /\ nEdits = 0
 
-MSetChain == UNCHANGED nEdits /\ \E c \in DesChains : \E rs \in ChainMenu(c) : SetChain(c, rs)
+MSetChain == UNCHANGED nEdits /\ \E c \in DesChains : \E m \in ChainMenu(c) : SetChain(c, m.rules, m.force)
 MRemoveChain == UNCHANGED nEdits /\ \E c \in DOMAIN desired.chains : RemoveChain(c)
 MSetIns == UNCHANGED nEdits /\ \E k \in KCh, rs \in InsMenu : SetIns(k, rs)
 MSetApp == UNCHANGED nEdits /\ \E k \in KCh, rs \in AppMenu : SetApp(k, rs)
@@ -54,7 +54,7 @@ RuleOK(r) == r.h \in {"", "F", "STALE"} /\ r.id \in 1..9 /\ r.tgt \in {""} \cup 
 TypeOK ==
     /\ \A c \in DOMAIN kernel : \A i \in 1..Len(kernel[c]) : RuleOK(kernel[c][i])
     /\ DOMAIN desired.ins = KCh /\ DOMAIN desired.app = KCh
-    /\ DOMAIN desired.chains \subseteq DesChains
+    /\ DOMAIN desired.chains \subseteq DesChains /\ desired.force \subseteq DOMAIN desired.chains
     /\ belief \in [stale : BOOLEAN, due : BOOLEAN]
 \* whenever desired is consistent the witness satisfies the property and the reference reconciler's
 \* write would be accepted by RTable!Write
